@@ -108,6 +108,11 @@ def c03_cases(tier, seed):
         cs.append(Case("<?xml" + ws + "version='1.0'?><a/>", "nc", True,
                        meta={"gen": "decl-ws", "expect_content": ["Q 1 - x61"]}))
     cs += gens.g_long(flags="nc")
+    # a parameter entity is not a general entity: a PE declared before a general entity of the same name does not bind it (D13)
+    cs.append(Case("<!DOCTYPE r [<!ENTITY % part \"<!--from-pe--><x/>\"><!ENTITY part \"<y/><?p v?>\">]><r>&part;</r>", "nc", True,
+                   meta={"gen": "pe-not-ge-markup", "expect_content": ["Q 1 - x72", "Q 2 - x79", "K 3 x70 x76"]}))
+    cs.append(Case("<!DOCTYPE r [<!ENTITY % e '<!--c-->'><!ENTITY e '<a><b/></a>'><!ENTITY % f 'x'>]><r>&e;<c/></r>", "nc", True,
+                   meta={"gen": "pe-not-ge-markup", "expect_content": ["Q 1 - x72", "Q 2 - x61", "Q 3 - x62", "Q 4 - x63"]}))
     # PI data with '?' in every position relative to the closing '?>'
     for data in ("?", "??", "???", "a?", "a??", "?a", "a?b", "is it so??", "x ? > ?"):
         cs.append(Case("<r><?q " + data + "?><a/><!--c--><?z done?></r>", "nc", True,
@@ -531,6 +536,9 @@ def c13_cases(tier, seed):
     cs += gens.g_ent_random(seed, 300 if q else 3000, flags="ncpb")
     # the documented saturation limits of the attribute sub-ranges
     cs.append(Case("<r " + "a" * 70000 + "='v'/>", "p", True, meta={"gen": "qname-sat"}))
+    # names with a leading colon (a documented leniency: accepted); the sub-ranges must still be exact
+    for d in ("<e :a='1'/>", "<e :k\u00f6  =  \"v\" x='2'/>", "<e a='0' :b = 'x' c:d='y' xmlns:c='u'/>", "<:e :a='1'></:e>"):
+        cs.append(Case(d, "ncpb", True, meta={"gen": "leading-colon"}))
     # just below the documented limits: the sub-ranges must still be exact
     for nlen, pad in ((65533, 0), (65534, 0), (65400, 100), (65000, 126), (65279, 127)):
         cs.append(Case("<r x='1' " + "a" * nlen + " " * pad + "=" + " " * pad + "'value'/>", "p", True, meta={"gen": "qname-below-sat", "name_len": nlen, "pad": pad}))
@@ -597,6 +605,12 @@ def c14_cases(tier, seed):
     cs += [Case(c.data, "t", True, meta=c.meta) for c in gens.g_nonchar()]
     # text_pos_at inside characters whose continuation bytes are 0x80 / 0xBF
     cs += [Case("<e>р–À…😀\u07ff\uffff</e>".replace("\uffff", ""), "t", True, meta={"gen": "continuation-bytes"})]
+    # something the internal subset cannot contain, behind various prefixes: the error is reported AT that construct
+    for bad in ("%pe;", "<![INCLUDE[ x ]]>", "text", "<!FOO x>", "<r/>", "]]>", "&e;", "<!ENTITYx y 'z'>"):
+        for pre in ("", "\n", "<!ENTITY a 'b'>", "<!ENTITY a 'b'>\n  ", "<!-- c -->\n<?p q?>\n\t", "<!ELEMENT r ANY>\n\n", "<!ENTITY % pe 'x'> \u00e9".replace(" \u00e9", "") + "\n"):
+            head = "<?xml version='1.0'?>\n<!DOCTYPE r [" + pre
+            doc = head + bad + "\n]><r/>"
+            cs.append(Case(doc, "t", True, meta={"gen": "dtd-bad-construct", "expect_err_at": len(head.encode())}))
     # whitespace insertion ahead of the offending construct: groups (base, shifted, kind, k)
     groups = []
     rnd = random.Random(seed)
@@ -720,11 +734,24 @@ def c16_cases(tier, seed):
              "<r>&lt;!DOCTYPE</r>", "<!DOCTYPE r SYSTEM 'x'><r/>", " <!DOCTYPE r><r/>", "<!DOCTYPE\nr><r/>", "<!DOCTYPE\tr [<!ENTITY e 'xxxx'>]><r a='&e;&e;'>&e;&e;</r>", "<!DOCTYPE\r\nr><r/>",
              "<!--c--> <?p?>\n<!DOCTYPE r [<!ENTITY e 'xxxxxxxx'>]><r>&e;&e;&e;</r>", "\ufeff<?xml version='1.0'?><!--c--><!DOCTYPE r><r/>", "<!DOCTYPE r [<!ENTITY e 'v'>]><r>&e;</r>", "<!DOCTYPE", "<!DOCTYPE>"]
     base += [Case(s, "", True, meta={"gen": "doctype-forms"}) for s in extra]
+    # errors of DOCTYPE-free documents must be the same error at the same position under both option values
+    base += [Case(s, "", True, meta={"gen": "no-doctype-errors"}) for s in
+             ("<a>&x;</a>", "<a b='&x;'/>", "<a>t&x;u</a>", "<a>\n\n  &undefined;</a>", "<a>&#;</a>", "<a><b>&x;</b></a>", "<a>&amp;&x;</a>", "<a b='1' b='2'/>", "<a></b>")]
     cs = []
     for c in base:
         cs.append(Case(c.data, "ncp", True, U32MAX, meta=c.meta))
         cs.append(Case(c.data, "ncp", False, U32MAX, meta=c.meta))
         cs.append(Case(c.data, "ncpD", False, U32MAX, meta=c.meta))      # Document::parse
+    # allow_dtd must not interact with nodes_limit either: small documents (with text nodes, so that the node count is
+    # not the number of '<') under a few small limits, both option values
+    rnd = random.Random(seed + 9)
+    small = [c for c in base if len(c.data) <= 60 and b"<!DOCTYPE" not in c.data]
+    small = rnd.sample(small, min(len(small), 300 if q else 3000)) + [Case(x, "", True, meta={"gen": "limit-x-dtd"}) for x in ("<a>t<b/>t<b/>t</a>", "<a>x<b>y</b>z</a>", "<a><!--c-->t<?p?>u</a>")]
+    for c in small:
+        for L in (2, 3, 4, 5, 6, 8):
+            cs.append(Case(c.data, "ncp", True, L, meta=c.meta))
+            cs.append(Case(c.data, "ncp", False, L, meta=c.meta))
+            cs.append(Case(c.data, "ncp", False, L, meta=c.meta))
     return cs
 
 
@@ -796,6 +823,9 @@ def c18_cases(tier, seed):
         if "'" not in body:
             cs.append(Case("<!DOCTYPE r [<!ENTITY e '<a k=\"" + body + "\"/>'>]><r>&e;</r>", "ncb", True, meta={"gen": "fast-attr-in-entity", "expect_borrowed_attr": borrowed}))
             cs.append(Case("<!DOCTYPE r [<!ENTITY e '<a k=\"" + body + "\"/>'><!ENTITY f 'x&e;y'>]><r>&f;</r>", "ncb", True, meta={"gen": "fast-attr-in-entity2", "expect_borrowed_attr": borrowed}))
+    for body in ("if a > b then", "x => y", "-->|", "a>b>c", ">", "]>", "a ]] > b"):
+        cs.append(Case("<r>" + body + "</r>", "ncb", True, meta={"gen": "fast-text-gt", "expect_borrowed_text": True, "text_node": 2}))
+        cs.append(Case("<!DOCTYPE r [<!ENTITY e '<a>" + body + "</a>'>]><r>&e;</r>", "ncb", True, meta={"gen": "fast-text-gt-in-entity", "expect_borrowed_text": True, "text_node": 3}))
     for body, borrowed in (("plain", True), ("a&amp;b", False), ("é中", True)):
         cs.append(Case("<!DOCTYPE r [<!ENTITY e '<a>" + body + "</a>'>]><r>&e;</r>", "ncb", True, meta={"gen": "fast-text-in-entity", "expect_borrowed_text": borrowed, "text_node": 3}))
         # a text node that consists solely of a reference to an entity whose replacement text is that literal piece
